@@ -19,6 +19,7 @@ package scalarDistribution
 /* -------------------------------------------------------------------------- */
 
 import   "fmt"
+import   "math"
 
 import . "github.com/pbenner/autodiff"
 import . "github.com/pbenner/autodiff/statistics"
@@ -68,9 +69,18 @@ func (dist *ChiSquaredDistribution) ScalarType() ScalarType {
 }
 
 func (dist *ChiSquaredDistribution) LogPdf(r Scalar, x ConstScalar) error {
+  if x.GetFloat64() < 0.0 {
+    r.SetFloat64(math.Inf(-1))
+    return nil
+  }
   t := NewScalar(dist.ScalarType(), 0.0)
-  r.Log(x)
-  r.Mul(r, dist.E)
+  if dist.E.GetFloat64() == 0.0 {
+    // k = 2: x^(k/2-1) = 1 also at x = 0
+    r.SetFloat64(0.0)
+  } else {
+    r.Log(x)
+    r.Mul(r, dist.E)
+  }
   t.Div(x, dist.C)
   r.Sub(r, t)
   r.Sub(r, dist.Z)
